@@ -645,4 +645,32 @@ theorem clipPowerOfTwo_floor (c : Po2Cfg) (hfl : c.floorMode = true) (phase : Bo
       else po2Qf c * clipI (floorFromRound (po2Input c xabs s) (roundLog2 (po2Input c xabs s)))
                           c.minExp c.maxExp := by
   unfold clipPowerOfTwo po2Log2; simp only [hfl, if_true]
+
+/-! ## ternary's unrolled iteration: inference / flag-off calls ignore phase and draws -/
+
+theorem ternCodes_det (phase phase' : Bool) (xs : List ℚ) (scale : ℚ) (us us' : List ℚ) :
+    ternCodes false phase xs scale us = ternCodes false phase' xs scale us' := by
+  unfold ternCodes ternaryStep
+  simp only [roundThrough_det]
+
+theorem ternCodes_infer (stoch phase' : Bool) (xs : List ℚ) (scale : ℚ) (us us' : List ℚ) :
+    ternCodes stoch false xs scale us = ternCodes false phase' xs scale us' := by
+  unfold ternCodes ternaryStep
+  simp only [roundThrough_det, roundThrough_infer]
+
+theorem ternLoop_infer (po2 stoch phase' : Bool) (xs : List ℚ) (n : ℕ) :
+    ∀ (scale : ℚ) (d d' : List (List ℚ)) (q : List ℚ),
+      ternLoop po2 stoch false xs n scale d q = ternLoop po2 false phase' xs n scale d' q := by
+  induction n with
+  | zero => intro scale d d' q; rfl
+  | succ n ih =>
+    intro scale d d' q
+    simp only [ternLoop]
+    rw [ternCodes_infer stoch phase' xs scale (d.headD []) (d'.headD [])]
+    exact ih _ _ _ _
+
+theorem binaryQ_det (use01 phase phase' : Bool) (α x m m' u1 u2 v1 v2 : ℚ) :
+    binaryQ use01 false phase α x m u1 u2 = binaryQ use01 false phase' α x m' v1 v2 := by
+  unfold binaryQ; simp
+
 end QKV.Stoch
